@@ -72,35 +72,25 @@ let nows kv = List.map z_of_dec (split_on ',' (get kv "nows" "-"))
 let clock0 kv = match split_on ',' (get kv "clock" "-") with a :: _ -> z_of_dec a | [] -> Z0
 let nth_now l i dflt = try List.nth l i with _ -> dflt
 
-(* copy-like commands: one job per matched file / item, stop at the first failure.
-   [run job now] returns the result; [dest_name job] where the destination lives. *)
-let run_copy_like op kv jobs (run : 'a -> z -> cmd_result) (dest_name : 'a -> string) =
+(* copy-like commands: one job per matched file / item, stop at the first failure.  The loop itself
+   is the extracted [run_copies] / [run_sum_copies] (Model/World.v); here the path names are numbered,
+   the initial world is looked up and the destinations that changed are written back. *)
+let run_world op kv (names : string list)
+    (runner : bool -> (z * handle option) list -> (string -> z) -> z list -> z -> (((z * handle option) list * status) * record list))
+    (dests : string list) =
   match textout kv with
   | ToBad -> obs "%s err" op
   | to_ ->
-    let ns = nows kv in
-    let rec go i jobs acc = match jobs with
-      | [] -> (StOk, List.rev acc)
-      | j :: rest ->
-        let now = nth_now ns i (clock0 kv) in
-        let before = lookup (dest_name j) in
-        let r = run j now in
-        let long = to_ = ToFull && nrecords r.r_out >= 110 in
-        if long then begin
-          (* the report fails while printing: no final Sync; a destination that had to be created
-             keeps its synced header *)
-          (match before with
-           | None -> (match create (getz kv "m" 2) (z_of_hex (get kv "x" "3f000000")) (layout_of_csv (get kv "layout" "")) with
-               | Some fresh -> set_file (dest_name j) (Some (sync fresh)) | None -> ())
-           | Some _ -> ());
-          (StErr, List.rev acc)
-        end else begin
-          (match r.r_dest with Some d -> set_file (dest_name j) (Some d) | None -> ());
-          match r.r_status with
-          | StOk -> go (i + 1) rest (List.rev_append r.r_out acc)
-          | st -> (st, List.rev acc)
-        end in
-    let (st, recs) = go 0 jobs [] in
+    let tbl = Hashtbl.create 16 in
+    List.iter (fun n -> if not (Hashtbl.mem tbl n) then Hashtbl.add tbl n (Hashtbl.length tbl)) names;
+    let id n = z_of_int (Hashtbl.find tbl n) in
+    let w0 = Hashtbl.fold (fun n i acc -> (z_of_int i, lookup n) :: acc) tbl [] in
+    let ((w', st), recs) = runner (to_ = ToFull) w0 id (nows kv) (clock0 kv) in
+    List.iter (fun d ->
+        match wget w' (id d), wget w0 (id d) with
+        | Some a, Some b when a == b -> ()
+        | None, None -> ()
+        | v, _ -> set_file d v) dests;
     let st = textout_status to_ st in
     (match to_ with ToFile -> emit op st recs | _ -> obs "%s %s" op (status_str st))
 
@@ -134,18 +124,18 @@ let () =
         | None -> ())
      | _ -> ());
     let globbed = get kv "files" "-" <> "-" || String.contains sr '*' || String.contains sr '?' || String.contains sr '[' in
-    if globbed then begin
-      let files = split_on ',' (get kv "files" "-") in
-      if files = [] then obs "clicopy %s" (if textout kv = ToBad then "err" else "notexist")
-      else
+    let jobs =
+      if globbed then
         (* matched source files are copied to the same relative path under the destination base *)
-        let jobs = List.map (fun f ->
+        List.map (fun f ->
             let rel = String.sub f (String.length sb + 1) (String.length f - String.length sb - 1) in
-            (f, join db rel)) files in
-        run_copy_like "clicopy" kv jobs (fun (s, d) now -> copy_one flocq_fops (lookup s) (lookup d) o now) snd
-    end else
-      let sname = join sb sr and dname = join db (if dr = "" then sr else dr) in
-      run_copy_like "clicopy" kv [(sname, dname)] (fun (s, d) now -> copy_one flocq_fops (lookup s) (lookup d) o now) snd);
+            (f, join db rel)) (split_on ',' (get kv "files" "-"))
+      else [(join sb sr, join db (if dr = "" then sr else dr))] in
+    if globbed && jobs = [] then obs "clicopy %s" (if textout kv = ToBad then "err" else "notexist")
+    else
+      run_world "clicopy" kv (List.concat_map (fun (s, d) -> [s; d]) jobs)
+        (fun long w id ns dflt -> run_copies flocq_fops long o w (List.map (fun (s, d) -> (id s, id d)) jobs) ns dflt)
+        (List.map snd jobs));
   register "clidiff" (fun tk ->
     let kv = kv_of tk in
     let (sb, sr) = base_rel (get kv "src" "") and (db, dr) = base_rel (get kv "dest" "") in
@@ -186,10 +176,10 @@ let () =
     let o = copy_opts kv in
     if items = [] then obs "clisumcopy %s" (if textout kv = ToBad then "err" else "notexist")
     else
-      run_copy_like "clisumcopy" kv items
-        (fun (item, files) now -> sum_copy_item flocq_fops (List.map lookup files)
-            (lookup (join (join (get kv "destbase" "") (item_dir item)) (get kv "dest" ""))) o now)
-        (fun (item, _) -> join (join (get kv "destbase" "") (item_dir item)) (get kv "dest" "")));
+      let dest_of item = join (join (get kv "destbase" "") (item_dir item)) (get kv "dest" "") in
+      run_world "clisumcopy" kv (List.concat_map (fun (item, files) -> dest_of item :: files) items)
+        (fun long w id ns dflt -> run_sum_copies flocq_fops long o w (List.map (fun (item, files) -> (List.map id files, id (dest_of item))) items) ns dflt)
+        (List.map (fun (item, _) -> dest_of item) items));
   register "clisumdiff" (fun tk ->
     let kv = kv_of tk in
     let items = parse_items kv in
